@@ -4,6 +4,7 @@ import KV.Generated.Install
 import KV.Wire
 import KV.EmittedF
 import KV.T1FExec
+import KV.TypeConv
 /-! Line-protocol driver for the executable models: one request per line on stdin, one canonical answer
     line on stdout.  The correspondence check pipes the same lines to the implementation's drivers
     (verif-tagged test files in /repo) and diffs the two streams.
@@ -12,6 +13,7 @@ import KV.T1FExec
       E <same>                        emitted-program dump in the form recovered from *_band.go
       V <pre> ... | <op> ...          VarPool history (ops n:<base> t:<TypeName> c:<TypeName>)
       I path=name path=name ...       TypeConverter.AddImport history
+      T <cur|-> | <package names> | <type s-expression>   TypeConverter.TypeToExpr (KV/TypeConv.lean)
       F crash|fault                   witnesses of the install step list (failure path of C15)
       X <decl> | fails <decl idx>.. | cancel <0|1>   outcomes the T1F semantics allows for the emitted program
       XS <same>                       the same, followed by ` states=<n>` (states expanded by the search)
@@ -112,6 +114,109 @@ def handleImports (line : String) : String :=
         let p := paths.getD pid ""
         p ++ "=" ++ (if n == lastPathElement p then "" else n))
       "I " ++ " ".intercalate names ++ " | " ++ " ".intercalate (sortStrs specs)
+
+/-! `T` lines: s-expression of a type → `TConv.Ty` -/
+mutual
+/-- (fuel, tokens) → (type, remaining tokens) -/
+def parseTyS : Nat → List String → Option (TConv.Ty × List String)
+  | 0, _ => none
+  | fuel + 1, toks =>
+    match toks with
+    | [] => none
+    | "ie" :: rest => some (.node .ifaceEmpty [], rest)
+    | "il" :: rest => some (.node .ifaceLit [], rest)
+    | "(" :: kind :: rest =>
+      let withKids := fun (tag : TConv.Tag) (rest : List String) (arity : Option Nat) =>
+        match parseKids fuel rest with
+        | some (ks, rest') => if arity.all (· == ks.length) then some (TConv.Ty.node tag ks, rest') else none
+        | none => none
+      match kind with
+      | "n" => match rest with
+        | p :: nm :: rest' => match p.toNat?, nm.toNat? with
+          | some p, some nm => withKids (.named p nm) rest' none
+          | _, _ => none
+        | _ => none
+      | "p" => withKids .ptr rest (some 1)
+      | "s" => withKids .slice rest (some 1)
+      | "a" => match rest with
+        | n :: rest' => match n.toNat? with
+          | some n => withKids (.arr n) rest' (some 1)
+          | none => none
+        | _ => none
+      | "m" => withKids .map rest (some 2)
+      | "c" => match rest with
+        | d :: rest' => match d.toNat? with
+          | some d => if d ≤ 2 then withKids (.chan d) rest' (some 1) else none
+          | none => none
+        | _ => none
+      | "v" => withKids .variadic rest (some 1)
+      | "f" => match rest with
+        | n :: rest' => match n.toNat? with
+          | some n => match parseKids fuel rest' with
+            | some (ks, rest'') => if n ≤ ks.length then some (.node (.func n) ks, rest'') else none
+            | none => none
+          | none => none
+        | _ => none
+      | "st" => match rest with
+        | spec :: rest' =>
+          let fs := if spec == "-" then some [] else
+            (spec.splitOn ",").mapM (fun f => match f.splitOn ":" with
+              | [a, b] => match a.toNat? with
+                | some a => some (a, b == "1")
+                | none => none
+              | _ => none)
+          match fs with
+          | some fs => withKids (.struct fs) rest' (some fs.length)
+          | none => none
+        | _ => none
+      | _ => none
+    | t :: rest =>
+      if t.startsWith "b" then
+        match (t.drop 1).toString.toNat? with
+        | some k => if k < 8 then some (.node (.basic k) [], rest) else none
+        | none => none
+      else none
+def parseKids : Nat → List String → Option (List TConv.Ty × List String)
+  | 0, _ => none
+  | fuel + 1, toks =>
+    match toks with
+    | ")" :: rest => some ([], rest)
+    | _ =>
+      match parseTyS fuel toks with
+      | none => none
+      | some (t, rest) =>
+        match parseKids fuel rest with
+        | none => none
+        | some (ts, rest') => some (t :: ts, rest')
+end
+
+/-- variadic parameters only as the last parameter of a function (what the implementation-side driver accepts) -/
+partial def variadicOk : Bool → TConv.Ty → Bool
+  | allowed, .node tag kids =>
+    (match tag with | .variadic => allowed | _ => true) &&
+    (match tag with
+     | .func n => (kids.zipIdx).all (fun (k, i) => variadicOk (i + 1 == n) k)
+     | _ => kids.all (variadicOk false))
+
+def handleTypeConv (line : String) : String :=
+  match line.splitOn "|" with
+  | [c, names, ty] =>
+    let names := words names
+    let cur : Option (Option Nat) := if c.trimAscii.toString == "-" then some none else (c.trimAscii.toString.toNat?).map some
+    match cur with
+    | none => "BAD"
+    | some cur =>
+      if cur.any (· ≥ names.length) then "BAD" else
+      let toks := words ty
+      match parseTyS (toks.length + 2) toks with
+      | some (t, []) =>
+        if !variadicOk false t then "BAD" else
+        match TConv.render cur (fun p => names.getD p "") { imports := [], used := [], counters := [] } t with
+        | none => "FUEL"
+        | some (tc, e) =>
+          "T " ++ TConv.exStr e ++ " | " ++ " ".intercalate (sortStrs (tc.imports.map (fun (p, n) => "p" ++ toString p ++ "=" ++ n)))
+      | _ => "BAD"
+  | _ => "BAD"
 
 def contStr : Inst.Cont → String
   | .empty => "empty" | .part => "part" | .full => "full"
@@ -283,6 +388,7 @@ def handle (line : String) : String :=
   else if line.startsWith "V" && line.length == 1 then "BAD"
   else if line.startsWith "I " then handleImports (line.drop 2).toString
   else if line.startsWith "F " then handleInstall (line.drop 2).trimAscii.toString
+  else if line.startsWith "T " then handleTypeConv (line.drop 2).toString
   else if line.startsWith "W " then handleWire (line.drop 2).toString
   else if line.startsWith "X " then handleOutcomes false (line.drop 2).toString
   else if line.startsWith "XS " then handleOutcomes true (line.drop 3).toString
